@@ -138,7 +138,8 @@ def parseMediaTypeHeader (s : Str) : Except Err MediaType :=
   let (full, params) := parseHeader s
   let full := if full == ['*'] then ['*', '/', '*'] else full
   let (m, sep, sub) := partition '/' full
-  if !sep then .error .type else .ok { main := strip m, sub := strip sub, params := params }
+  -- (after fix a19fe30: type and subtype are lower-cased, RFC 9110 8.3.1)
+  if !sep then .error .type else .ok { main := lower (strip m), sub := lower (strip sub), params := params }
 
 structure MediaRange where
   main : Str
